@@ -156,6 +156,9 @@ type GateResult struct {
 	Atoms    int                      // number of refining conditions found
 	Opaque   []ssa.Instruction        // conditions that depend on the subject but are not atoms
 	Bits     int
+	Edge     map[[2]*ssa.BasicBlock]ZSet // reach set per CFG edge
+	InModule func(fn *ssa.Function) bool // predicate helpers of the module may be looked into
+	preds    map[*ssa.Function]*predSets
 	Tables   func(g *ssa.Global) *gtable // constant tables of the module (nil: none)
 	Relied   map[*ssa.Global]bool        // tables the result depends on (must be initialiser-only)
 }
@@ -304,7 +307,12 @@ type atom struct {
 	op   token.Token
 	c    int64
 	keys map[int64]int64 // non-nil: the atom is "e is a key of this table" (op EQL) or its negation (NEQ)
+	pred *predSets       // non-nil: the atom is "helper(e)" (op EQL) or "!helper(e)" (NEQ)
 }
+
+// predSets over-approximates a one-argument boolean helper: the argument values for which
+// it can return true, and those for which it can return false.
+type predSets struct{ T, F ZSet }
 
 func flipOp(op token.Token) token.Token {
 	switch op {
@@ -347,6 +355,20 @@ func (g *GateResult) atomOf(cond ssa.Value) (*atom, bool) {
 		}
 		neg = !neg
 		cond = u.X
+	}
+	if call, ok := cond.(*ssa.Call); ok && g.InModule != nil {
+		if f := call.Call.StaticCallee(); f != nil && g.InModule(f) && len(call.Call.Args) == 1 && len(f.Params) == 1 && len(f.Blocks) > 0 {
+			if e := g.derive(call.Call.Args[0], 0); e != nil && len(e.ops) == 0 {
+				if ps := g.predicate(f); ps != nil {
+					a := &atom{e: e, op: token.EQL, pred: ps}
+					if neg {
+						a.op = token.NEQ
+					}
+					return a, true
+				}
+			}
+		}
+		return nil, false
 	}
 	if ex, ok := cond.(*ssa.Extract); ok && ex.Index == 1 {
 		if lk, ok := ex.Tuple.(*ssa.Lookup); ok && lk.CommaOk && g.Tables != nil {
@@ -435,6 +457,12 @@ func (g *GateResult) refine(s ZSet, a *atom, want bool) ZSet {
 	op := a.op
 	if !want {
 		op = negOp(op)
+	}
+	if a.pred != nil {
+		if op == token.EQL {
+			return s.Intersect(a.pred.T)
+		}
+		return s.Intersect(a.pred.F)
 	}
 	if a.keys != nil || a.e.hasTable() {
 		return g.refineByEnumeration(s, a, op)
@@ -632,8 +660,8 @@ func minI(a, b int64) int64 {
 
 // AnalyseGate runs the reach-set analysis.  defBlock is the block in which the subject
 // becomes defined (entry block for a parameter).
-func AnalyseGate(fn *ssa.Function, subjects map[ssa.Value]bool, defBlock *ssa.BasicBlock, domain ZSet, bits int, tables func(*ssa.Global) *gtable) *GateResult {
-	g := &GateResult{Fn: fn, Subjects: subjects, Domain: domain, Reach: map[*ssa.BasicBlock]ZSet{}, Pre: map[*ssa.BasicBlock]bool{}, Bits: bits, Tables: tables, Relied: map[*ssa.Global]bool{}}
+func AnalyseGate(fn *ssa.Function, subjects map[ssa.Value]bool, defBlock *ssa.BasicBlock, domain ZSet, bits int, tables func(*ssa.Global) *gtable, inModule func(*ssa.Function) bool) *GateResult {
+	g := &GateResult{Fn: fn, Subjects: subjects, Domain: domain, Reach: map[*ssa.BasicBlock]ZSet{}, Pre: map[*ssa.BasicBlock]bool{}, Bits: bits, Tables: tables, Relied: map[*ssa.Global]bool{}, Edge: map[[2]*ssa.BasicBlock]ZSet{}, InModule: inModule}
 	if len(fn.Blocks) == 0 {
 		return g
 	}
@@ -686,6 +714,8 @@ func AnalyseGate(fn *ssa.Function, subjects map[ssa.Value]bool, defBlock *ssa.Ba
 			}
 		}
 		for i, s := range b.Succs {
+			k := [2]*ssa.BasicBlock{b, s}
+			g.Edge[k] = g.Edge[k].Union(outs[i])
 			old := g.Reach[s]
 			nw := old.Union(outs[i])
 			if nw.String() != old.String() || (len(old.cells) == 0 && len(nw.cells) > 0) {
@@ -796,4 +826,77 @@ func (g *GateResult) atomTruth(a *atom, op token.Token, v int64) int {
 		return 1
 	}
 	return 0
+}
+
+
+// predicate analyses a one-argument boolean helper `func(n int) bool` of the module.
+func (g *GateResult) predicate(f *ssa.Function) *predSets {
+	if g.preds == nil {
+		g.preds = map[*ssa.Function]*predSets{}
+	}
+	if ps, ok := g.preds[f]; ok {
+		return ps
+	}
+	g.preds[f] = nil // recursion guard
+	p := f.Params[0]
+	if !isIntType(p.Type()) {
+		return nil
+	}
+	if res := f.Signature.Results(); res.Len() != 1 {
+		return nil
+	} else if b, ok := res.At(0).Type().Underlying().(*types.Basic); !ok || b.Kind() != types.Bool {
+		return nil
+	}
+	lo, hi := int64(math.MinInt64), int64(math.MaxInt64)
+	if g.Bits == 32 {
+		lo, hi = math.MinInt32, math.MaxInt32
+	}
+	// no side effects: only value computations, branches and returns
+	for _, b := range f.Blocks {
+		for _, in := range b.Instrs {
+			switch in.(type) {
+			case *ssa.BinOp, *ssa.UnOp, *ssa.Phi, *ssa.If, *ssa.Jump, *ssa.Return, *ssa.DebugRef, *ssa.Convert, *ssa.ChangeType, *ssa.IndexAddr, *ssa.Lookup, *ssa.Extract:
+			default:
+				return nil
+			}
+		}
+	}
+	inner := AnalyseGate(f, map[ssa.Value]bool{p: true}, f.Blocks[0], ZRange(lo, hi), g.Bits, g.Tables, nil)
+	for tg := range inner.Relied {
+		g.Relied[tg] = true
+	}
+	ps := &predSets{}
+	addVal := func(v ssa.Value, reach ZSet) bool {
+		if c, ok := v.(*ssa.Const); ok && c.Value != nil {
+			if c.Value.String() == "true" {
+				ps.T = ps.T.Union(reach)
+			} else {
+				ps.F = ps.F.Union(reach)
+			}
+			return true
+		}
+		if a, ok := inner.atomOf(v); ok {
+			ps.T = ps.T.Union(inner.refine(reach, a, true))
+			ps.F = ps.F.Union(inner.refine(reach, a, false))
+			return true
+		}
+		return false
+	}
+	for _, ret := range returnsOf(f) {
+		b := ret.Block()
+		v := ret.Results[0]
+		if phi, ok := v.(*ssa.Phi); ok && phi.Block() == b {
+			for i, pr := range b.Preds {
+				if !addVal(phi.Edges[i], inner.Edge[[2]*ssa.BasicBlock{pr, b}]) {
+					return nil
+				}
+			}
+			continue
+		}
+		if !addVal(v, inner.Reach[b]) {
+			return nil
+		}
+	}
+	g.preds[f] = ps
+	return ps
 }
